@@ -492,10 +492,21 @@ class Interp:
         self.trace.append(f.name)
         scope['__func__'] = f.name
         env = [scope]
+        # the interpreter is deterministic on the model machine: a function re-entered with the same argument values while it is still active never returns
+        frame = (f.name, tuple(repr(v.v if isinstance(v, Cell) else v) for v in (scope[p[1]] for p in f.params)))
+        active = self.__dict__.setdefault('_active', [])
+        if frame in active:
+            raise CUndefined('%s calls itself again with the same arguments: unbounded recursion' % f.name)
+        if len(active) > 200:
+            raise Unsupported('call depth above 200 through %s' % f.name)
+        active.append(frame)
         try:
-            r = self.block(f.body, env)
-        except Goto as g:
-            r = self.resume_at(f, g.label, env)
+            try:
+                r = self.block(f.body, env)
+            except Goto as g:
+                r = self.resume_at(f, g.label, env)
+        finally:
+            active.pop()
         if r is not None and r[0] == 'return':
             if r[1] is None or f.ret == 'void':
                 return None
